@@ -1,5 +1,8 @@
 """C04 — register caching is observationally transparent.
 
+Registers have an immediate <Length> or a <pLength> that names a variable (Integer with <Value>); the cache key is
+(node, address, current length).  GUARD: length variables stay within 0..=LMAX (see LMAX).
+
 Every generated history is run TWICE on the real code by rust/h_cache (context built with
 GenApiBuilder::default() and with .no_cache()).  The property's own predicate compares the two runs
 (results, final image, access logs); the correspondence compares both runs with model/Cache.v."""
@@ -15,19 +18,33 @@ KINDS = {"int": 0, "float": 1, "string": 2, "raw": 3, "masked": 4}
 TAGS = {"int": "IntReg", "float": "FloatReg", "string": "StringReg", "raw": "Register", "masked": "MaskedIntReg"}
 BASE = 0x100
 IMG = 48
+LMAX = 16        # GUARD: a length variable only ever holds 0..=LMAX (model/Cache.v describes lengths >= 0; the code
+                 # allocates `length as usize` bytes: negative = capacity-overflow panic, huge = that many bytes)
 NS = "{http://www.genicam.org/GenApi/Version_1_0}"
 
 
 # ----------------------------------------------------------------------------- systems ------
 
-def reg(kind, addr, length, mode="WriteThrough", sign=0, endian=0, lo=0, hi=0, index=(), inval=(), struct=None):
-    """lo/hi: field bits in normalised (LSB-0) numbering; index: [(node index of a variable, offset)]"""
+def reg(kind, addr, length, mode="WriteThrough", sign=0, endian=0, lo=0, hi=0, index=(), inval=(), struct=None, plen=None):
+    """lo/hi: field bits in normalised (LSB-0) numbering (of the nominal length); index: [(node index of a variable,
+    offset)]; plen: node index of the variable that holds the length (<pLength>), `length` is then only the nominal
+    length the field bits were chosen for"""
     return dict(t="reg", kind=kind, addr=addr, len=length, mode=mode, sign=sign, endian=endian, lo=lo, hi=hi,
-                index=list(index), inval=set(inval), struct=struct)
+                index=list(index), inval=set(inval), struct=struct, plen=plen)
 
 
-def var(init=0):
-    return dict(t="var", init=init)
+def var(init=0, dom=None):
+    """dom: the only values a history gives the variable (a variable that is some register's length: within 0..=LMAX,
+    the declared invalidators are computed from it); None = a selector, any value"""
+    if dom is not None:
+        dom = sorted(set(dom) | {init})
+        assert all(0 <= v <= LMAX for v in dom)
+    return dict(t="var", init=init, dom=dom)
+
+
+def lens(r, nodes):
+    """the lengths register r can have"""
+    return [r["len"]] if r.get("plen") is None else list(nodes[r["plen"]]["dom"])
 
 
 def pint(target):
@@ -42,15 +59,16 @@ def offsets(r):
     return [o for _, o in r["index"] if o != 0]
 
 
-def may_overlap(r1, r2, same):
-    """Can the byte ranges of two cache keys of r1 / r2 overlap for some values of the index variables
-    (for the same register: two different addresses)?"""
+def may_overlap(r1, r2, same, nodes):
+    """Can the byte ranges of two cache keys of r1 / r2 overlap for some values of the index and length variables
+    (for the same register: two different keys, i.e. two addresses, or one address under two lengths)?  Overlap is
+    monotone in the lengths, so the largest producible lengths decide."""
     g = 0
     for o in offsets(r1) + offsets(r2):
         g = gcd(g, abs(o))
-    l1, l2 = r1["len"], r2["len"]
+    l1, l2 = max(lens(r1, nodes)), max(lens(r2, nodes))
     if same:
-        return g != 0 and g < l1
+        return (g != 0 and g < l1) or len([l for l in lens(r1, nodes) if l > 0]) >= 2
     d = r1["addr"] - r2["addr"]          # a1 - a2 ranges over d + t*g
     if g == 0:
         return -l1 < d < l2
@@ -64,7 +82,7 @@ def declare(nodes, rng=None, extra=False):
     regs = [(i, n) for i, n in enumerate(nodes) if n["t"] == "reg"]
     for i, a in regs:
         for j, b in regs:
-            if may_overlap(a, b, i == j):
+            if may_overlap(a, b, i == j, nodes):
                 b["inval"].add(i)           # a (the writer) invalidates b
     if extra and rng is not None:
         for j, b in regs:
@@ -81,6 +99,14 @@ def declared_bits(n):
     if n["endian"]:
         return 8 * L - 1 - n["lo"], 8 * L - 1 - n["hi"]
     return n["lo"], n["hi"]
+
+
+def length_xml(n, nodes):
+    """RegisterBase's parser takes the element after the address kinds as the length whatever its name and decides
+    by its text (a name = node reference); the schema's names are Length / pLength"""
+    if n.get("plen") is None:
+        return X.el("Length", n["len"])
+    return X.el("pLength", name(n["plen"], nodes))
 
 
 def render_xml(nodes):
@@ -105,7 +131,7 @@ def render_xml(nodes):
             s = X.el("Address", n["addr"])
             for v, o in n["index"]:
                 s += '<pIndex Offset="%d">%s</pIndex>' % (o, name(v, nodes))
-            s += X.el("Length", n["len"]) + X.el("AccessMode", n.get("am", "RW")) + X.el("pPort", "Device")
+            s += length_xml(n, nodes) + X.el("AccessMode", n.get("am", "RW")) + X.el("pPort", "Device")
             s += X.el("Cachable", n["mode"])
             if common:
                 s += "".join(X.el("pInvalidator", name(k, nodes)) for k in common)
@@ -123,7 +149,7 @@ def render_xml(nodes):
             s = X.el("Address", n["addr"])
             for v, o in n["index"]:
                 s += '<pIndex Offset="%d">%s</pIndex>' % (o, name(v, nodes))
-            s += X.el("Length", n["len"]) + X.el("AccessMode", n.get("am", "RW")) + X.el("pPort", "Device")
+            s += length_xml(n, nodes) + X.el("AccessMode", n.get("am", "RW")) + X.el("pPort", "Device")
             s += X.el("Cachable", n["mode"])
             s += "".join(X.el("pInvalidator", name(k, nodes)) for k in sorted(n["inval"]))
             if n["kind"] == "masked":
@@ -153,8 +179,9 @@ def render_model_sys(nodes):
         else:
             lsb, msb = declared_bits(n)
             ix = "[" + "; ".join("(%d, %s)" % (slots[v], zlit(o)) for v, o in n["index"]) + "]"
-            items.append("NReg (Build_creg %d %d %d %d %d %d %s %d %d %s)"
-                         % (KINDS[n["kind"]], n["sign"], n["endian"], lsb, msb, n["addr"], ix, n["len"],
+            ln = "(LImm %d)" % n["len"] if n.get("plen") is None else "(LVar %d)" % slots[n["plen"]]
+            items.append("NReg (Build_creg %d %d %d %d %d %d %s %s %d %s)"
+                         % (KINDS[n["kind"]], n["sign"], n["endian"], lsb, msb, n["addr"], ix, ln,
                             MODES.index(n["mode"]), zlist(sorted(n["inval"]))))
     vars0 = [n["init"] for n in nodes if n["t"] == "var"]
     return "(Build_system [" + "; ".join(items) + "] %d)" % len(nodes), vars0
@@ -421,7 +448,19 @@ def int_like(nodes):
     return [i for i, n in enumerate(nodes) if n["t"] in ("var", "int") or (n["t"] == "reg" and n["kind"] in ("int", "masked"))]
 
 
-def value_for(rng, n):
+def resolve(nodes, i):
+    """the node a set_value on node i finally reaches (pValue chains)"""
+    seen = 0
+    while nodes[i]["t"] == "int" and seen < 10:
+        i = nodes[i]["target"]
+        seen += 1
+    return i
+
+
+def value_for(rng, n, L=None):
+    """L: the register's current length as far as the generator can tell"""
+    if n["t"] == "var" and n.get("dom") is not None:
+        return [rng.choice(n["dom"])]
     if n["t"] != "reg":
         return [rng.choice([0, 1, 2, 3, rng.range(-2, 9)])]
     k = n["kind"]
@@ -435,7 +474,7 @@ def value_for(rng, n):
         return [rng.choice([0, 0x3FF0000000000000, 0x4000000000000000, 0xC008000000000000, 0x7FF0000000000000,
                             0x3FB999999999999A, rng.below(1 << 64)])]
     if k == "string":
-        ln = rng.range(0, min(n["len"] + 1, 9))
+        ln = rng.range(0, min((n["len"] if L is None else L) + 1, 9))
         s = [rng.choice([65, 66, 97, 48, 32, 126]) for _ in range(ln)]
         if rng.chance(1, 25):
             s = s[:max(0, ln - 2)] + [0xC3, 0x88]         # a non-ASCII character (UTF-8)
@@ -445,36 +484,69 @@ def value_for(rng, n):
     return [0]
 
 
-def rand_ops(rng, nodes, nops, sel_values=(0, 1, 2, 3)):
+def rand_ops(rng, nodes, nops, sel_values=(0, 1, 2, 3), hot=()):
+    """hot: nodes that are picked half of the time (a register with a variable length and its length variable)"""
     regs = [i for i, n in enumerate(nodes) if n["t"] == "reg"]
     vals = [i for i, n in enumerate(nodes) if n["t"] != "cmd" and not (n["t"] == "reg" and n["kind"] == "raw")]
     cmds = [i for i, n in enumerate(nodes) if n["t"] == "cmd"]
     vrs = [i for i, n in enumerate(nodes) if n["t"] == "var"]
+    cur = {i: n["init"] for i, n in enumerate(nodes) if n["t"] == "var"}      # the variables as the history goes
+
+    def pick(pool):
+        h = [i for i in hot if i in pool]
+        return rng.choice(h) if h and rng.chance(1, 2) else rng.choice(pool)
+
+    def curlen(i):
+        n = nodes[i]
+        return n["len"] if n.get("plen") is None else cur[n["plen"]]
+
+    def set_var(i, dflt):
+        n = nodes[i]
+        v = rng.choice(n["dom"]) if n.get("dom") is not None else dflt()
+        cur[i] = v
+        if n.get("dom") is not None:
+            changed.append(i)
+        return [v]
+
     ops = []
+    changed = []
     for _ in range(nops):
+        if changed:
+            # a length has just been written: most of the time read a register of that length next (read / change / read)
+            lv = changed.pop()
+            users = [i for i in regs if nodes[i].get("plen") == lv]
+            if users and rng.chance(2, 3):
+                i = rng.choice(users)
+                ops.append(("v", i) if nodes[i]["kind"] != "raw" and rng.chance(3, 4) else ("rr", i, curlen(i)))
+                continue
         x = rng.below(100)
         if x < 36 and vals:
-            ops.append(("v", rng.choice(vals)))
+            ops.append(("v", pick(vals)))
         elif x < 60 and vals:
-            i = rng.choice(vals)
-            if nodes[i]["t"] == "var":
-                ops.append(("s", i, [rng.choice(list(sel_values) + ([7, -1] if rng.chance(1, 8) else []))]))
+            i = pick(vals)
+            t = resolve(nodes, i)
+            if nodes[t]["t"] == "var":
+                if t == i:
+                    ops.append(("s", i, set_var(t, lambda: rng.choice(list(sel_values) + ([7, -1] if rng.chance(1, 8) else [])))))
+                else:
+                    ops.append(("s", i, set_var(t, lambda: value_for(rng, nodes[t])[0])))
+            elif nodes[t]["t"] == "reg":
+                ops.append(("s", i, value_for(rng, nodes[t], curlen(t))))
             else:
-                tgt = nodes[i]
-                seen = 0
-                while tgt["t"] == "int" and seen < 10:
-                    tgt = nodes[tgt["target"]]
-                    seen += 1
-                ops.append(("s", i, value_for(rng, tgt)))
+                ops.append(("s", i, value_for(rng, nodes[t])))
         elif x < 68 and regs:
-            i = rng.choice(regs)
-            ops.append(("rr", i, nodes[i]["len"] if not rng.chance(1, 10) else rng.range(0, 9)))
+            i = pick(regs)
+            ops.append(("rr", i, curlen(i) if not rng.chance(1, 10) else rng.range(0, 9)))
         elif x < 80 and regs:
-            i = rng.choice(regs)
-            ln = nodes[i]["len"] if not rng.chance(1, 10) else rng.range(0, 9)
+            i = pick(regs)
+            ln = curlen(i) if not rng.chance(1, 10) else rng.range(0, 9)
             ops.append(("rw", i, list(rng.bytes(ln)) if rng.chance(2, 3) else [rng.choice([0, 1, 65, 255])] * ln))
         elif x < 86 and cmds:
-            ops.append(("ex", rng.choice(cmds)))
+            i = rng.choice(cmds)
+            ops.append(("ex", i))
+            t = resolve(nodes, nodes[i]["target"])
+            if nodes[t]["t"] == "var":
+                cur[t] = nodes[i]["cv"]
         elif x < 90 and cmds:
             ops.append(("dn", rng.choice(cmds)))
         elif x < 93:
@@ -482,7 +554,8 @@ def rand_ops(rng, nodes, nops, sel_values=(0, 1, 2, 3)):
         elif x < 97:
             ops.append(("rej", rng.below(3)))
         elif vrs:
-            ops.append(("s", rng.choice(vrs), [rng.choice(sel_values)]))
+            i = pick(vrs)
+            ops.append(("s", i, set_var(i, lambda: rng.choice(sel_values))))
         else:
             ops.append(("v", rng.choice(vals)) if vals else ("cc",))
     return ops
@@ -496,7 +569,40 @@ def add_wrappers(rng, nodes):
             il = int_like(nodes)
     for _ in range(rng.below(3)):
         if il:
-            nodes.append(cmd(rng.choice(il), rng.choice([1, 0, 7, 255])))
+            t = rng.choice(il)
+            tv = nodes[resolve(nodes, t)]
+            # a command that ends in a length variable writes a length of that variable's domain
+            cv = rng.choice(tv["dom"]) if tv["t"] == "var" and tv.get("dom") is not None else rng.choice([1, 0, 7, 255])
+            nodes.append(cmd(t, cv))
+
+
+def len_domain(rng, kind, L):
+    """the values of a length variable: around what the typed node accepts, sometimes a length it refuses"""
+    if kind in ("int", "masked"):
+        d = {L, rng.choice([1, 2, 4, 8]), rng.choice([1, 2, 4, 8])}
+        if rng.chance(1, 4):
+            d.add(rng.choice([0, 3, 5, 16]))
+    elif kind == "float":
+        d = {4, 8} | ({rng.choice([0, 2, 16])} if rng.chance(1, 4) else set())
+    else:
+        d = {L, rng.range(0, 9), rng.range(1, LMAX)}
+        if rng.chance(1, 3):
+            d.add(rng.range(0, LMAX))
+    return sorted(d)
+
+
+def add_plength(rng, nodes, share=None):
+    """turn some plain registers into registers whose length is a variable (<pLength>); the variables are appended"""
+    for i in [i for i, n in enumerate(nodes) if n["t"] == "reg" and n["struct"] is None and n["plen"] is None]:
+        if not rng.chance(1, 5):
+            continue
+        n = nodes[i]
+        if share is not None and rng.chance(1, 3) and n["len"] in nodes[share]["dom"]:
+            n["plen"] = share                              # two registers with one length variable
+            continue
+        nodes.append(var(n["len"], dom=len_domain(rng, n["kind"], n["len"])))
+        n["plen"] = share = len(nodes) - 1
+    return share
 
 
 def sys_overlap(rng):
@@ -504,6 +610,7 @@ def sys_overlap(rng):
     anchor = BASE + rng.below(IMG - 12)
     for _ in range(rng.range(2, 5)):
         nodes.append(rand_reg(rng, addr=anchor + rng.below(6) if rng.chance(3, 4) else None))
+    add_plength(rng, nodes)
     add_wrappers(rng, nodes)
     return nodes
 
@@ -524,6 +631,15 @@ def sys_struct(rng):
         nodes.append(reg("masked", a, L, mode=mode, sign=rng.below(2), endian=en, lo=lo, hi=hi, struct=sid))
     for _ in range(rng.below(3)):
         nodes.append(rand_reg(rng, addr=a + rng.range(-2, L) if rng.chance(2, 3) else None, kinds=("int", "masked", "raw")))
+    share = None
+    if rng.chance(1, 6):
+        # the structure's length is a variable: all entries share it
+        nodes.append(var(L, dom=len_domain(rng, "masked", L)))
+        share = len(nodes) - 1
+        for m in nodes:
+            if m["t"] == "reg" and m["struct"] is not None:
+                m["plen"] = share
+    add_plength(rng, nodes, share)
     add_wrappers(rng, nodes)
     return nodes
 
@@ -546,8 +662,99 @@ def sys_selector(rng):
             nodes.append(rand_reg(rng, addr=b + off * rng.below(4) + rng.choice([0, 0, 1]), kinds=("int", "masked", "raw", "string")))
         else:
             nodes.append(rand_reg(rng))
+    add_plength(rng, nodes)
     add_wrappers(rng, nodes)
     return nodes
+
+
+def sys_plength(rng):
+    """a register whose length is a variable (all five kinds), optionally selector addressed (the selector may be
+    the length variable itself), with registers on its bytes - static ones and ones sharing the length variable"""
+    kind = rng.choice(["string", "raw", "int", "int", "masked", "float", "string"])
+    L = rng.choice([1, 2, 4, 8]) if kind in ("int", "masked") else rng.choice([4, 8]) if kind == "float" else rng.range(1, 9)
+    dom = len_domain(rng, kind, L)
+    nodes = [var(rng.choice(dom), dom=dom)]
+    b = BASE + rng.below(IMG - 12)
+    if rng.chance(1, 8):
+        b = BASE + IMG - rng.range(1, 8)             # the longer variants leave the image
+    index = []
+    if rng.chance(1, 3):
+        nodes.append(var(rng.below(3)))
+        index = [(1, rng.choice([1, 2, 4, L, 8]))]
+    elif rng.chance(1, 8):
+        index = [(0, rng.choice([1, 2, 4]))]
+    lo, hi = field(rng, L) if kind == "masked" else (0, 0)
+    nodes.append(reg(kind, b, L, mode=rng.choice(["WriteThrough", "WriteThrough", "WriteAround", "NoCache"]), sign=rng.below(2),
+                     endian=rng.below(2), lo=lo, hi=hi, index=index, plen=0))
+    for _ in range(rng.range(0, 2)):
+        if rng.chance(1, 3):
+            k2 = rng.choice(["raw", "string"] + ([kind] if kind != "masked" else []))
+            nodes.append(reg(k2, b + rng.below(4), L, mode=rng.choice(MODES), sign=rng.below(2), endian=rng.below(2), plen=0))
+        else:
+            nodes.append(rand_reg(rng, addr=b + rng.below(max(dom) + 1) - rng.below(3)))
+    add_plength(rng, nodes, 0)
+    add_wrappers(rng, nodes)
+    return nodes
+
+
+def plength_boundary():
+    """registers whose length is a variable: read / shrink / read (a block cached under the old length must not be
+    served), grow after a write while short (the register is its own pInvalidator), lengths the typed node refuses,
+    one address under several lengths, selector and length together, the length written through a pValue wrapper and
+    by a command, the long variant outside the image - under all three caching modes"""
+    img = bytes(range(0x41, 0x41 + IMG))
+    cs = []
+
+    def case(nodes, ops):
+        declare(nodes)
+        cs.append(make_case(nodes, img, ops, fam="boundary"))
+
+    for mode in MODES:
+        for kind in ("string", "int", "float", "masked", "raw"):
+            rd = ("rr", 1, 8) if kind == "raw" else ("v", 1)
+            rd4 = ("rr", 1, 4) if kind == "raw" else ("v", 1)
+            wr = {"string": ("s", 1, [97, 98]), "int": ("s", 1, [0x01020304]), "float": ("s", 1, [0x3FF8000000000000]),
+                  "masked": ("s", 1, [5]), "raw": ("rw", 1, [9, 8, 7, 6])}[kind]
+            for endian in (0, 1):
+                mk = lambda: [var(8, dom=[4, 8]), reg(kind, BASE + 8, 8, mode=mode, endian=endian, lo=1, hi=4, plen=0)]
+                case(mk(), [rd, ("s", 0, [4]), rd4, ("rr", 1, 4), ("s", 0, [8]), rd, ("rr", 1, 8), ("rr", 1, 4)])
+                case(mk(), [rd, ("s", 0, [4]), wr, rd4, ("s", 0, [8]), rd, ("s", 0, [4]), rd4, ("cc",), ("s", 0, [8]), rd])
+                case(mk(), [rd, ("s", 0, [4]), ("rw", 1, [1, 2, 3, 4]), ("s", 0, [8]), rd, ("rw", 1, [1, 2, 3, 4]),
+                            ("rw", 1, [8, 7, 6, 5, 4, 3, 2, 1]), ("s", 0, [4]), rd4])
+        # lengths the typed node refuses, length 0
+        nodes = [var(4, dom=[0, 3, 4, 5]), reg("int", BASE, 4, mode=mode, plen=0)]
+        case(nodes, [("v", 1), ("s", 0, [3]), ("v", 1), ("s", 1, [7]), ("rr", 1, 3), ("s", 0, [0]), ("v", 1), ("rr", 1, 0),
+                     ("rw", 1, []), ("s", 0, [4]), ("v", 1), ("s", 0, [5]), ("v", 1), ("s", 0, [4]), ("v", 1)])
+        nodes = [var(4, dom=[2, 4, 16]), reg("float", BASE, 4, mode=mode, plen=0)]
+        case(nodes, [("v", 1), ("s", 0, [2]), ("v", 1), ("s", 1, [0x4000000000000000]), ("s", 0, [16]), ("v", 1), ("s", 0, [4]), ("v", 1)])
+        # one address under several lengths: static registers and a variable-length one
+        for mode2 in MODES:
+            nodes = [var(2, dom=[2, 4, 8]), reg("string", BASE, 2, mode=mode, plen=0), reg("int", BASE, 4, mode=mode2),
+                     reg("int", BASE, 8, mode=mode), reg("raw", BASE, 2, mode=mode2)]
+            case(nodes, [("v", 1), ("v", 2), ("v", 3), ("s", 0, [8]), ("v", 1), ("s", 2, [0x61626364]), ("v", 1), ("v", 3),
+                         ("s", 0, [4]), ("v", 1), ("s", 1, [65]), ("v", 2), ("v", 3), ("rr", 4, 2), ("s", 0, [2]), ("v", 1),
+                         ("rw", 4, [66, 67]), ("v", 1), ("s", 0, [8]), ("v", 1), ("v", 2)])
+        # selector and length together; the length variable as the selector
+        nodes = [var(4, dom=[2, 4]), var(0), reg("int", BASE, 4, mode=mode, index=[(1, 4)], plen=0), reg("int", BASE + 4, 2, mode="WriteThrough")]
+        case(nodes, [("v", 2), ("s", 1, [1]), ("v", 2), ("s", 0, [2]), ("v", 2), ("s", 1, [0]), ("v", 2), ("s", 2, [0x1234]), ("s", 0, [4]),
+                     ("v", 2), ("s", 1, [1]), ("v", 2), ("s", 3, [0x7777]), ("v", 2), ("s", 0, [2]), ("v", 2), ("v", 3)])
+        nodes = [var(2, dom=[1, 2, 4]), reg("int", BASE, 2, mode=mode, index=[(0, 2)], plen=0)]
+        case(nodes, [("v", 1), ("s", 0, [4]), ("v", 1), ("s", 1, [0x01020304]), ("s", 0, [2]), ("v", 1), ("s", 0, [1]), ("v", 1),
+                     ("s", 1, [9]), ("s", 0, [4]), ("v", 1), ("s", 0, [2]), ("v", 1)])
+        # the length written through a pValue wrapper and by a command
+        nodes = [var(8, dom=[4, 8]), reg("string", BASE, 8, mode=mode, plen=0), pint(0), cmd(2, 4)]
+        case(nodes, [("v", 1), ("ex", 3), ("v", 1), ("dn", 3), ("s", 2, [8]), ("v", 1), ("dn", 3), ("s", 1, [120, 121]), ("ex", 3), ("v", 1),
+                     ("s", 2, [8]), ("v", 1)])
+        # the long variant lies outside the image
+        nodes = [var(4, dom=[4, 8]), reg("int", BASE + IMG - 4, 4, mode=mode, plen=0)]
+        case(nodes, [("v", 1), ("s", 0, [8]), ("v", 1), ("s", 1, [1]), ("s", 0, [4]), ("v", 1), ("s", 1, [2]), ("s", 0, [8]), ("v", 1),
+                     ("s", 0, [4]), ("v", 1)])
+        # a structure whose length is a variable
+        nodes = [var(2, dom=[2, 4]), reg("masked", BASE, 2, mode=mode, lo=0, hi=3, struct=0, plen=0),
+                 reg("masked", BASE, 2, mode=mode, lo=4, hi=15, struct=0, plen=0)]
+        case(nodes, [("v", 1), ("v", 2), ("s", 0, [4]), ("v", 1), ("v", 2), ("s", 1, [3]), ("v", 2), ("s", 0, [2]), ("v", 2), ("v", 1),
+                     ("s", 2, [0x123]), ("s", 0, [4]), ("v", 1), ("v", 2)])
+    return cs
 
 
 def boundary_cases():
@@ -604,11 +811,11 @@ def boundary_cases():
 def gen_cases(ck):
     rng = Rng(ck.seed)
     quick = ck.tier == "quick"
-    cases = boundary_cases()
+    cases = plength_boundary() + boundary_cases()
     n = 3600 if quick else 30000
-    fams = [("overlap", sys_overlap), ("struct", sys_struct), ("selector", sys_selector)]
+    fams = [("overlap", sys_overlap), ("struct", sys_struct), ("selector", sys_selector), ("plength", sys_plength)]
     for k in range(n):
-        fam, mk = fams[k % 3]
+        fam, mk = fams[k % 4]
         nodes = mk(rng)
         if rng.chance(1, 3):
             # declared access modes: per register, shared by the entries of one structure
@@ -632,7 +839,9 @@ def gen_cases(ck):
                     nd["am"] = per_struct[nd["struct"]]
         declare(nodes, rng, extra=rng.chance(1, 3))
         image = rng.bytes(IMG) if rng.chance(3, 4) else bytes([rng.choice([0, 255, 65])] * IMG)
-        ops = rand_ops(rng, nodes, rng.range(3, 30))
+        hot = [i for i, nd in enumerate(nodes) if nd["t"] == "reg" and nd["plen"] is not None]
+        hot += sorted({nodes[i]["plen"] for i in hot})
+        ops = rand_ops(rng, nodes, rng.range(3, 30), hot=hot)
         cases.append(make_case(nodes, image, ops, fam=fam))
     return cases
 
@@ -684,16 +893,21 @@ def shrink(ck, binary, c, pred):
 
 # ------------------------------------------------------------------------------------ main ---
 
-RULE = ("register systems of three families - overlapping IntReg/MaskedIntReg/FloatReg/StringReg/Register nodes, StructReg "
+RULE = ("register systems of four families - overlapping IntReg/MaskedIntReg/FloatReg/StringReg/Register nodes, StructReg "
         "entries with sibling registers, selector-addressed register banks (pIndex/Offset, also self-overlapping and with "
-        "aliasing static registers) - each with Integer->pValue wrappers and Command nodes, all three Cachable modes, "
-        "pInvalidator lists computed by the property's rule (every register whose bytes another can alter declares it; "
-        "sometimes extra invalidators incl. the Port), registers straddling the end of the device image; histories of 3..30 "
-        "operations: value / set_value, IRegister::read / write, execute / is_done, selector changes, clear_cache, scripted "
-        "write rejections.  Every history runs twice on the real code (DefaultCacheStore vs CacheSink); predicate: equal "
-        "results, equal final image, equal writes, cached access log a subsequence of the uncached one, all-NoCache systems "
-        "have identical logs; both runs are also compared with model/Cache.v (vm_compute).  non-trivial = caching saved at "
-        "least one access and the history wrote to the device")
+        "aliasing static registers), registers whose length is a variable (<pLength> -> Integer with <Value>; all five kinds, "
+        "alone, selector addressed, sharing one length variable, the length variable being the selector, struct-level; such "
+        "registers are also mixed into the other three families) - each with Integer->pValue wrappers and Command nodes "
+        "(also ending in a length variable), all three Cachable modes, pInvalidator lists computed by the property's rule over "
+        "all selector values and all producible lengths (every register whose bytes another can alter declares it, a register "
+        "whose own keys can overlap declares itself; sometimes extra invalidators incl. the Port), registers straddling the end "
+        "of the device image; histories of 3..30 operations: value / set_value, IRegister::read / write, execute / is_done, "
+        "selector changes, length changes (shrink, grow, lengths the typed node refuses, 0; always within 0..16), clear_cache, "
+        "scripted write rejections; fixed boundary histories first (read / shrink / read, grow after a write while short, one "
+        "address under several lengths, all modes and kinds).  Every history runs twice on the real code (DefaultCacheStore vs "
+        "CacheSink); predicate: equal results, equal final image, equal writes, cached access log a subsequence of the "
+        "uncached one, all-NoCache systems have identical logs; both runs are also compared with model/Cache.v (vm_compute).  "
+        "non-trivial = caching saved at least one access and the history wrote to the device")
 
 
 def evaluate(ck, binary, cases):
@@ -752,7 +966,7 @@ def main():
     cases = gen_cases(ck)
     ck.phase("generate")
     impl, model = evaluate(ck, binary, cases)
-    for fam in ("minimised", "boundary", "overlap", "struct", "selector"):
+    for fam in ("minimised", "boundary", "overlap", "struct", "selector", "plength"):
         idx = [i for i, c in enumerate(cases) if c.meta["fam"] == fam]
         ck.compare([cases[i] for i in idx], [impl[i] for i in idx], [model[i] for i in idx], full_predicate, nontrivial,
                    correspondence="model/Cache.v run_both vs the two runs of the real code", family=fam,
@@ -760,7 +974,8 @@ def main():
     nops = sum(len(c.meta["ops"]) for c in cases)
     ck.dist["operations"] = nops
     kinds, modes, topo = {}, {}, {"indexed_register": 0, "struct_entry": 0, "pvalue_wrapper": 0, "command": 0,
-                                  "register_outside_image": 0, "self_invalidator": 0, "port_invalidator": 0}
+                                  "register_outside_image": 0, "self_invalidator": 0, "port_invalidator": 0, "plength_register": 0,
+                                  "length_variable_also_selector": 0}
     for c in cases:
         for o in c.meta["ops"]:
             kinds[o[0]] = kinds.get(o[0], 0) + 1
@@ -770,7 +985,10 @@ def main():
                 modes[n["mode"]] = modes.get(n["mode"], 0) + 1
                 topo["indexed_register"] += bool(n["index"])
                 topo["struct_entry"] += n["struct"] is not None
-                topo["register_outside_image"] += n["addr"] + n["len"] > c.meta["base"] + len(c.meta["image"])
+                topo["register_outside_image"] += n["addr"] + max(lens(n, ns)) > c.meta["base"] + len(c.meta["image"])
+                topo["plength_register"] += n["plen"] is not None
+                topo["length_variable_also_selector"] += n["plen"] is not None and any(
+                    v == n["plen"] for m in ns if m["t"] == "reg" for v, _ in m["index"])
                 topo["self_invalidator"] += i in n["inval"]
                 topo["port_invalidator"] += len(ns) in n["inval"]
             topo["pvalue_wrapper"] += n["t"] == "int"
@@ -778,5 +996,8 @@ def main():
     ck.dist["op_kinds"] = kinds
     ck.dist["register_modes"] = modes
     ck.dist["topology"] = topo
+    ck.dist["histories_changing_a_length"] = sum(
+        any(o[0] == "s" and o[1] < len(ns) and ns[resolve(ns, o[1])].get("dom") is not None for o in c.meta["ops"])
+        for c in cases for ns in [c.meta["nodes"]])
     ck.dist["histories_with_rejection"] = sum(any(o[0] == "rej" for o in c.meta["ops"]) for c in cases)
     ck.finish()
